@@ -255,8 +255,20 @@ def run_property(verif, pid, tier, seed):
         try: os.remove(old)
         except OSError: pass
     import concurrent.futures as CF
+    def _run(u):
+        O = run_unit(verif, u, pid, tier, scratch)
+        # vacuity guard (DESIGN 2.5): a unit that was decided must have produced verification conditions; zero items is a tool
+        # hiccup (seen once under heavy parallel load), not a pass — run it once more, then report it as undecided
+        if O.undecided is None and (O.verus_items <= 0 or O.obligations <= 0):
+            O2 = run_unit(verif, u, pid, tier, scratch)
+            if O2.undecided is None and (O2.verus_items <= 0 or O2.obligations <= 0):
+                O2.undecided = "vacuity: Verus reported no verification condition for this unit (twice)"
+            return O2
+        return O
     with CF.ThreadPoolExecutor(max_workers=4) as ex:
-        outcomes = list(ex.map(lambda u: run_unit(verif, u, pid, tier, scratch), conf["units"]))
+        outcomes = list(ex.map(_run, conf["units"]))
+    if len(outcomes) != len(conf["units"]):
+        log(f"internal: {len(outcomes)} outcomes for {len(conf['units'])} units"); return 2
     extra = {}
     extra_undecided = []
     extra_fail = []
@@ -373,6 +385,7 @@ def run_property(verif, pid, tier, seed):
             "samples": [s for O in outcomes for s in O.samples][:8] or [{"note": "no labelled clause"}],
             "known_findings_hit": [k[0] for k in known],
             "undecided": undecided,
+            "units_expected": len(conf["units"]), "units_run": len(outcomes),
         },
         "assumptions": conf.get("assumptions", []),
         "wall_s": round(time.time() - t0, 2),
@@ -380,7 +393,9 @@ def run_property(verif, pid, tier, seed):
     }
     ev["coverage"].update({k: v for k, v in extra.items()})
     os.makedirs(os.path.join(verif, "evidence"), exist_ok=True)
-    json.dump(ev, open(os.path.join(verif, "evidence", pid + ".json"), "w"), indent=1)
+    evp = os.path.join(verif, "evidence", pid + ".json")
+    with open(evp + f".tmp{os.getpid()}", "w") as fh: json.dump(ev, fh, indent=1)
+    os.replace(evp + f".tmp{os.getpid()}", evp)
     for nm, txt in known:
         print(f"KNOWN-FINDING: property={pid} {nm} {txt}")
     for l in lines: print(l)
